@@ -142,7 +142,8 @@ static void fill_buf(rng_t* r, const bufspec_t* b, void* p, size_t bytes) {
 void op_exec(const opdef_t* o, const env_t* env, uint64_t seed, int prefill, unsigned mis, unsigned monitors, opres_t* res) {
   memset(res, 0, sizeof *res);
   rng_t r;
-  rng_seed(&r, seed, hash_bytes(o->name, strlen(o->name), 5));
+  const char* sname = o->twin ? o->twin : o->name;
+  rng_seed(&r, seed, hash_bytes(sname, strlen(sname), 5));
   opplan_t pl;
   memset(&pl, 0, sizeof pl);
   o->plan(&pl, &r, env);
@@ -700,6 +701,21 @@ static void call_s_cplx_to_tnx32(const opplan_t* pl, void* const p[], const env_
 TCALL(s_r4_mul, reim4_fftvec_mul_simple((uint32_t)e->m, p[0], p[1], p[2])) TCALL(s_r4_addmul, reim4_fftvec_addmul_simple((uint32_t)e->m, p[0], p[1], p[2]))
 TCALL(s_r4_from, reim4_from_cplx_simple((uint32_t)e->m, p[0], p[1])) TCALL(s_r4_to, reim4_to_cplx_simple((uint32_t)e->m, p[0], p[1]))
 
+// table-based twins of the two conversions whose *_simple form keeps a thread-local last-parameter cache:
+// same plan (divisor / bound / overhead drawn from the seed), but a freshly built table on every call
+static void call_fresh_to_znx64(const opplan_t* pl, void* const p[], const env_t* e) {
+  int saved = g_dispatch_native;
+  (void)saved;
+  REIM_TO_ZNX64_PRECOMP* t = new_reim_to_znx64_precomp((uint32_t)e->m, pl->d[0], (uint32_t)pl->u[0]);
+  reim_to_znx64(t, p[0], p[1]);
+  free(t);
+}
+static void call_fresh_cplx_to_tnx32(const opplan_t* pl, void* const p[], const env_t* e) {
+  CPLX_TO_TNX32_PRECOMP* t = new_cplx_to_tnx32_precomp((uint32_t)e->m, pl->d[0], (uint32_t)pl->u[0]);
+  cplx_to_tnx32(t, p[0], p[1]);
+  free(t);
+}
+
 #define NTTV(NAME) plan_##NAME##_ntt
 const opdef_t OPS[] = {
     {"vec_znx_zero", OPF_FFT64, plan_zero, call_zero}, {"vec_znx_zero@ntt120", OPF_NTT120, NTTV(zero), call_zero},
@@ -765,14 +781,92 @@ const opdef_t OPS[] = {
     {"reim4_vec_mat1col_product_ref", OPF_KERNEL, plan_r4_dot1, call_r4_dot1_ref}, {"reim4_vec_mat1col_product_avx2", OPF_KERNEL | OPF_AVX, plan_r4_dot1, call_r4_dot1_avx},
     {"reim4_vec_mat2cols_product_ref", OPF_KERNEL, plan_r4_dot2, call_r4_dot2_ref}, {"reim4_vec_mat2cols_product_avx2", OPF_KERNEL | OPF_AVX, plan_r4_dot2, call_r4_dot2_avx},
     {"reim4_convolution_ref", OPF_KERNEL, plan_r4_conv, call_r4_conv},
-    {"reim_fft_simple", OPF_SIMPLE, plan_inplace_d, call_s_reim_fft}, {"reim_ifft_simple", OPF_SIMPLE, plan_inplace_d, call_s_reim_ifft},
-    {"reim_fftvec_mul_simple", OPF_SIMPLE, plan_mul_d, call_s_reim_mul}, {"reim_fftvec_addmul_simple", OPF_SIMPLE, plan_addmul_d, call_s_reim_addmul},
-    {"reim_from_znx64_simple", OPF_SIMPLE, plan_from_znx64, call_s_from_znx64}, {"reim_to_znx64_simple", OPF_SIMPLE, plan_s_to_znx64, call_s_to_znx64},
-    {"cplx_fft_simple", OPF_SIMPLE, plan_inplace_d, call_s_cplx_fft}, {"cplx_ifft_simple", OPF_SIMPLE, plan_inplace_d, call_s_cplx_ifft},
-    {"cplx_fftvec_mul_simple", OPF_SIMPLE, plan_mul_d, call_s_cplx_mul}, {"cplx_fftvec_addmul_simple", OPF_SIMPLE, plan_addmul_d, call_s_cplx_addmul},
-    {"cplx_from_znx32_simple", OPF_SIMPLE, plan_cplx_from32, call_s_cplx_from_znx32}, {"cplx_from_tnx32_simple", OPF_SIMPLE, plan_cplx_from32, call_s_cplx_from_tnx32},
-    {"cplx_to_tnx32_simple", OPF_SIMPLE, plan_s_cplx_to_tnx32, call_s_cplx_to_tnx32},
-    {"reim4_fftvec_mul_simple", OPF_SIMPLE, plan_mul_r4, call_s_r4_mul}, {"reim4_fftvec_addmul_simple", OPF_SIMPLE, plan_addmul_r4, call_s_r4_addmul},
-    {"reim4_from_cplx_simple", OPF_SIMPLE, plan_conv_r4, call_s_r4_from}, {"reim4_to_cplx_simple", OPF_SIMPLE, plan_conv_r4, call_s_r4_to},
+    {"reim_to_znx64(fresh table)", OPF_TABLE, plan_s_to_znx64, call_fresh_to_znx64},
+    {"cplx_to_tnx32(fresh table)", OPF_TABLE, plan_s_cplx_to_tnx32, call_fresh_cplx_to_tnx32},
+    {"reim_fft_simple", OPF_SIMPLE, plan_inplace_d, call_s_reim_fft, "reim_fft"}, {"reim_ifft_simple", OPF_SIMPLE, plan_inplace_d, call_s_reim_ifft, "reim_ifft"},
+    {"reim_fftvec_mul_simple", OPF_SIMPLE, plan_mul_d, call_s_reim_mul, "reim_fftvec_mul"}, {"reim_fftvec_addmul_simple", OPF_SIMPLE, plan_addmul_d, call_s_reim_addmul, "reim_fftvec_addmul"},
+    {"reim_from_znx64_simple", OPF_SIMPLE, plan_from_znx64, call_s_from_znx64, "reim_from_znx64"}, {"reim_to_znx64_simple", OPF_SIMPLE, plan_s_to_znx64, call_s_to_znx64, "reim_to_znx64(fresh table)"},
+    {"cplx_fft_simple", OPF_SIMPLE, plan_inplace_d, call_s_cplx_fft, "cplx_fft"}, {"cplx_ifft_simple", OPF_SIMPLE, plan_inplace_d, call_s_cplx_ifft, "cplx_ifft"},
+    {"cplx_fftvec_mul_simple", OPF_SIMPLE, plan_mul_d, call_s_cplx_mul, "cplx_fftvec_mul"}, {"cplx_fftvec_addmul_simple", OPF_SIMPLE, plan_addmul_d, call_s_cplx_addmul, "cplx_fftvec_addmul"},
+    {"cplx_from_znx32_simple", OPF_SIMPLE, plan_cplx_from32, call_s_cplx_from_znx32, "cplx_from_znx32"}, {"cplx_from_tnx32_simple", OPF_SIMPLE, plan_cplx_from32, call_s_cplx_from_tnx32, "cplx_from_tnx32"},
+    {"cplx_to_tnx32_simple", OPF_SIMPLE, plan_s_cplx_to_tnx32, call_s_cplx_to_tnx32, "cplx_to_tnx32(fresh table)"},
+    {"reim4_fftvec_mul_simple", OPF_SIMPLE, plan_mul_r4, call_s_r4_mul, "reim4_fftvec_mul"}, {"reim4_fftvec_addmul_simple", OPF_SIMPLE, plan_addmul_r4, call_s_r4_addmul, "reim4_fftvec_addmul"},
+    {"reim4_from_cplx_simple", OPF_SIMPLE, plan_conv_r4, call_s_r4_from, "reim4_from_cplx"}, {"reim4_to_cplx_simple", OPF_SIMPLE, plan_conv_r4, call_s_r4_to, "reim4_to_cplx"},
 };
 const int N_CAT_OPS = (int)(sizeof OPS / sizeof OPS[0]);
+
+int op_find(const char* name) {
+  for (int i = 0; i < N_CAT_OPS; i++)
+    if (!strcmp(OPS[i].name, name)) return i;
+  return -1;
+}
+
+static uint64_t hb(uint64_t h, const void* p, size_t n, uint64_t* bytes) {
+  if (!p || !n) return h;
+  *bytes += n;
+  return hash_bytes(p, n, h);
+}
+static uint64_t hash_module(uint64_t h, const MODULE* M, uint64_t* bytes) {
+  if (!M) return h;
+  h = hb(h, M, sizeof(MODULE), bytes);
+  const uint64_t m = M->m;
+  if (M->module_type == FFT64) {
+    h = hb(h, M->mod.fft64.p_fft, sizeof(REIM_FFT_PRECOMP), bytes);
+    if (M->mod.fft64.p_fft) h = hb(h, M->mod.fft64.p_fft->powomegas, 2 * m * 8, bytes);
+    h = hb(h, M->mod.fft64.p_ifft, sizeof(REIM_IFFT_PRECOMP), bytes);
+    if (M->mod.fft64.p_ifft) h = hb(h, M->mod.fft64.p_ifft->powomegas, 2 * m * 8, bytes);
+    h = hb(h, M->mod.fft64.mul_fft, sizeof(REIM_FFTVEC_MUL_PRECOMP), bytes);
+    h = hb(h, M->mod.fft64.p_addmul, sizeof(REIM_FFTVEC_ADDMUL_PRECOMP), bytes);
+    h = hb(h, M->mod.fft64.p_conv, sizeof(struct reim_from_znx64_precomp), bytes);
+    h = hb(h, M->mod.fft64.p_reim_to_znx, sizeof(struct reim_to_znx64_precomp), bytes);
+  }
+  return h;
+}
+static uint64_t hash_ntt(uint64_t h, const q120_ntt_precomp* t, uint64_t* bytes) {
+  if (!t) return h;
+  h = hb(h, t, sizeof *t, bytes);
+  if (t->n > 1) {
+    h = hb(h, t->level_metadata, (ilog2(t->n) + 2) * sizeof(q120_ntt_step_precomp), bytes);
+    h = hb(h, t->powomega, 8 * t->n * 8, bytes);
+  }
+  return h;
+}
+uint64_t env_hash(const env_t* e, uint64_t* bytes) {
+  uint64_t h = 99, b = 0;
+  const uint64_t m = e->m;
+  h = hash_module(h, e->fft64, &b);
+  h = hash_module(h, e->ntt120, &b);
+  if (e->ntt120) {
+    h = hash_ntt(h, e->ntt120->mod.q120.p_ntt, &b);
+    h = hash_ntt(h, e->ntt120->mod.q120.p_intt, &b);
+  }
+  h = hb(h, e->reim_fft, sizeof(REIM_FFT_PRECOMP), &b);
+  h = hb(h, e->reim_fft->powomegas, 2 * m * 8, &b);
+  h = hb(h, e->reim_ifft, sizeof(REIM_IFFT_PRECOMP), &b);
+  h = hb(h, e->reim_ifft->powomegas, 2 * m * 8, &b);
+  h = hb(h, e->reim_mul, sizeof(REIM_FFTVEC_MUL_PRECOMP), &b);
+  h = hb(h, e->reim_addmul, sizeof(REIM_FFTVEC_ADDMUL_PRECOMP), &b);
+  h = hb(h, e->from_znx64, sizeof(struct reim_from_znx64_precomp), &b);
+  h = hb(h, e->to_znx64, sizeof(struct reim_to_znx64_precomp), &b);
+  h = hb(h, e->to_tnx, sizeof(struct reim_to_tnx_precomp), &b);
+  h = hb(h, e->cplx_fft, sizeof(struct cplx_fft_precomp), &b);
+  h = hb(h, e->cplx_fft->powomegas, 4 * m * 8, &b);
+  h = hb(h, e->cplx_ifft, sizeof(struct cplx_ifft_precomp), &b);
+  h = hb(h, e->cplx_ifft->powomegas, 4 * m * 8, &b);
+  h = hb(h, e->cplx_mul, sizeof(CPLX_FFTVEC_MUL_PRECOMP), &b);
+  h = hb(h, e->cplx_addmul, sizeof(CPLX_FFTVEC_ADDMUL_PRECOMP), &b);
+  h = hb(h, e->cplx_from_znx32, sizeof(struct cplx_from_znx32_precomp), &b);
+  h = hb(h, e->cplx_from_tnx32, sizeof(struct cplx_from_tnx32_precomp), &b);
+  h = hb(h, e->cplx_to_tnx32, sizeof(struct cplx_to_tnx32_precomp), &b);
+  h = hb(h, e->r4_mul, sizeof(struct reim4_mul_precomp), &b);
+  h = hb(h, e->r4_addmul, sizeof(struct reim4_addmul_precomp), &b);
+  h = hb(h, e->r4_from, sizeof(struct reim4_from_cplx_precomp), &b);
+  h = hb(h, e->r4_to, sizeof(struct reim4_to_cplx_precomp), &b);
+  h = hash_ntt(h, e->ntt, &b);
+  h = hash_ntt(h, e->intt, &b);
+  h = hb(h, e->baa, sizeof *e->baa, &b);
+  h = hb(h, e->bbb, sizeof *e->bbb, &b);
+  h = hb(h, e->bbc, sizeof *e->bbc, &b);
+  if (bytes) *bytes = b;
+  return h;
+}
